@@ -599,6 +599,7 @@ func (c05) Exec(tr *Trace, keep bool) *Outcome {
 		return o
 	}
 	suffix := sc.In.Suffix.Bytes()
+	feat["group"] = feat["pkg"] + "/" + feat["srckind"] + feat["bufclass"] + "/" + feat["ctor"]
 	o.fold(log, len(suffix) > 0)
 	if rec.Panic != "" {
 		o.violate(tr, "C05.panic", rec.Panic, feat)
